@@ -88,6 +88,16 @@ def correspondence(ctx):
         out.setdefault("notes", []).append("Conn half (checks/c11.py) not built yet")
     except AttributeError:
         out.setdefault("notes", []).append("checks/c11.py has no conn_cut_cases yet")
+    # Conn half, compressed batches: every cut position of a compressed v2 payload (checks/c02.py compressed_cut_cases)
+    try:
+        cc = importlib.import_module("checks.c02").compressed_cut_cases(ctx)
+        out["evaluations"] += cc.get("evaluations", 0)
+        out["distinct_nontrivial"] += cc.get("distinct_nontrivial", 0)
+        out["failures"] += cc.get("failures", [])
+        out["extra"]["compressed_cut_evaluations"] = cc.get("evaluations", 0)
+        out["samples"] += cc.get("samples", [])[:2]
+    except (ModuleNotFoundError, AttributeError):
+        out.setdefault("notes", []).append("checks/c02.py has no compressed_cut_cases yet")
     # Transport half through kafka.Transport itself (pool behaviour after a cut response): checks/c06.py
     try:
         c06 = importlib.import_module("checks.c06")
